@@ -294,9 +294,9 @@ def audit_axioms(pid, theorems):
     rc, out = sh(['lake', 'env', 'lean', path], cwd=LEAN, timeout=1200)
     res = {}
     # "'Kurbo.foo' depends on axioms: [propext, Classical.choice]"  /  "'Kurbo.foo' does not depend on any axioms"
-    for m in re.finditer(r"'([^']+)' depends on axioms: \[([^\]]*)\]", out.replace('\n', ' ')):
+    for m in re.finditer(r"'(\S+)' depends on axioms: \[([^\]]*)\]", out.replace('\n', ' ')):
         res[m.group(1).split('Kurbo.', 1)[-1]] = [a.strip() for a in m.group(2).split(',') if a.strip()]
-    for m in re.finditer(r"'([^']+)' does not depend on any axioms", out):
+    for m in re.finditer(r"'(\S+)' does not depend on any axioms", out):
         res[m.group(1).split('Kurbo.', 1)[-1]] = []
     return res, out
 
@@ -369,7 +369,7 @@ class EngineDied(Exception):
         super().__init__(f'engine {cmd} died after {n_out} of {len(lines)} lines: {stderr[-300:]}')
 
 
-def run_cases(cases, kvh=KVH, nproc=8):
+def run_cases(cases, kvh=KVH, nproc=8, heavy=False):
     """run all lines of all cases through the engines they need; returns list of (case, outs, verdict)"""
     per = {'I': [], 'R': [], 'F': []}
     index = []   # per case: {engine: (start, n)}
@@ -390,15 +390,33 @@ def run_cases(cases, kvh=KVH, nproc=8):
             # an abort in the implementation is itself a finding: locate the line by bisection
             died = (eng, ex)
             outs[eng] = bisect_dead(cmds[eng], per[eng])
+    global _JCTX
+    _JCTX = (cases, index, outs)
+    n = len(cases)
+    if heavy and n >= 64 and nproc > 1:
+        import multiprocessing as mp
+        with mp.get_context('fork').Pool(min(16, max(nproc, 12))) as pool:
+            verdicts = pool.map(_judge_idx, range(n), chunksize=max(1, n // 256))
+    else:
+        verdicts = [_judge_idx(k) for k in range(n)]
     results = []
-    for c, ix in zip(cases, index):
-        o = {eng: outs[eng][s:s + n] for eng, (s, n) in ix.items()}
-        try:
-            v = c.judge(o)
-        except Exception as ex:   # a judge must never crash the run silently
-            v = f'judge raised {ex!r}'
-        results.append((c, o, v))
+    for k, (c, ix) in enumerate(zip(cases, index)):
+        o = {eng: outs[eng][s:s + m] for eng, (s, m) in ix.items()}
+        results.append((c, o, verdicts[k]))
     return results
+
+
+_JCTX = None
+
+
+def _judge_idx(k):
+    cases, index, outs = _JCTX
+    c, ix = cases[k], index[k]
+    o = {eng: outs[eng][s:s + m] for eng, (s, m) in ix.items()}
+    try:
+        return c.judge(o)
+    except Exception as ex:   # a judge must never crash the run silently
+        return f'judge raised {ex!r}'
 
 
 def bisect_dead(cmd, lines):
